@@ -5,6 +5,7 @@ import (
 
 	"github.com/opsidian/parsley/combinator"
 	"github.com/opsidian/parsley/parsley"
+	"github.com/opsidian/parsley/text/terminal"
 
 	"vh/rt"
 )
@@ -96,19 +97,45 @@ func C14_BuildWrites() {
 		rt.Epoch()
 		Build(g, &Wrap{Name: true, Node: bindAll})
 		rt.Assert(rt.ForeignStores() == 0, "no-store-into-shared-state-at-construction")
+		// the only shared cell construction touches is the parser index counter:
+		// each Memoize must take its index in ONE atomic step (a separate
+		// increment and read can interleave with another constructor)
+		n0 := rt.AtomicOps()
+		combinator.Memoize(terminal.Rune('a'))
+		rt.Assert(rt.AtomicOps()-n0 == 1, "memoize-takes-its-index-in-one-atomic-step")
 		return
 	}
+	// natively: parsers built concurrently must behave independently. 8
+	// goroutines build memoized single-letter parsers; all of them are then
+	// alternatives of one Any, and every letter must be found.
+	const per = 300
 	var wg sync.WaitGroup
+	built := make([][]parsley.Parser, 8)
 	for k := 0; k < 8; k++ {
 		wg.Add(1)
-		go func() {
+		go func(k int) {
 			defer wg.Done()
-			for rep := 0; rep < 50; rep++ {
+			for rep := 0; rep < per; rep++ {
 				Build(g, &Wrap{Name: true, Node: bindAll})
+				built[k] = append(built[k], combinator.Memoize(terminal.Rune(rune('a'+k))))
 			}
-		}()
+		}(k)
 	}
 	wg.Wait()
+	for rep := 0; rep < per; rep++ {
+		alts := make([]parsley.Parser, 8)
+		for k := range alts {
+			alts[k] = built[k][rep]
+		}
+		root := combinator.Sentence(combinator.Any(alts...))
+		for k := 0; k < 8; k++ {
+			e := newEnv([]byte{byte('a' + k)})
+			if _, err := parsley.Parse(e.ctx, root); err != nil {
+				rt.Fail("memoize-takes-its-index-in-one-atomic-step", "parsers constructed concurrently share a result-cache slot: "+err.Error())
+				return
+			}
+		}
+	}
 }
 
 // ---- C17 ----
